@@ -221,6 +221,13 @@ func TestC02(t *testing.T) {
 			m["go_types"] = fmt.Sprintf("%v", c.GoType)
 			return m
 		})
+		if hx.Replaying() != "" {
+			for _, d := range ds {
+				if d.Sig != "" {
+					fmt.Printf("REPLAY-KNOWN sig=%s %s\n", d.Sig, hx.Trunc(d.Detail, 400))
+				}
+			}
+		}
 		if real := run.Triage(ds); len(real) > 0 {
 			fatal("C02 violated (%s): %s", c.Note, run.ReportFailure(c, real))
 		}
